@@ -6,7 +6,7 @@
 From Coq Require Import ZArith List Bool Lia.
 From RecordUpdate Require Import RecordUpdate.
 From SimVerif Require Import Model.Base Model.Env Model.FamEnv Model.RM Model.Maint Model.FloorTypes Model.Floor Model.FamFloor.
-From SimVerif Require Import Proofs.FloorSteps Proofs.FloorInv Proofs.FloorSys Proofs.FloorProc.
+From SimVerif Require Import Proofs.FloorReach Proofs.FloorSteps Proofs.FloorInv Proofs.FloorSys Proofs.FloorProc.
 Import ListNotations.
 Open Scope Z_scope.
 
@@ -48,6 +48,10 @@ Definition dev_leaves (x : dev) : list Z :=
   end.
 Definition inside (w : fw) : list Z := flat_map (fun e => dev_leaves (snd e)) (f_devs w).
 
+(** ... in every state that any well-formed scenario can reach (initialisation, calls, scheduled user events, steps, runs; any weights) *)
+Theorem C02_single_slot_always : forall sc s d x, reach_fl sc s -> aget d (f_devs (fst s)) = Some x -> SlotInv x.
+Proof. intros sc s d x H Hx. exact (proj1 (reach_dev sc s d x H Hx)). Qed.
+
 Print Assumptions C02_single_slot_meaning.
 Print Assumptions C02_single_slot_event.
 Print Assumptions C02_single_slot_step.
@@ -55,7 +59,23 @@ Print Assumptions C02_only_guarded_changes.
 Print Assumptions C02_accept_needs_empty_slots.
 Print Assumptions C02_failure_loses_only_input.
 
+Print Assumptions C02_single_slot_always.
 Example C02_nonvacuous :
   let h := t_finish (ISingle (mkPart 3 0 8 [1] [])) (t_accept 0 (ISingle (mkPart 3 0 8 [1] [])) (blank_dev KHandler)) in
   SlotInv (blank_dev KHandler) /\ SlotInv h /\ d_part h = None /\ leaves_of (d_out h) = [3].
 Proof. unfold SlotInv. cbn. repeat split; auto. Qed.
+
+(** Non-vacuity of "every reachable state of every well-formed scenario": the line source(3) -> buffer -> buffer -> sink(8),
+    encoded as the harness encodes it, is well-formed; after initialisation and a run of 24 ticks the sink has received 2 parts. *)
+Definition c02_line : list Z :=
+  [0; 301; 3; 0; 0; 0; 0; 0; 100; 5; 3; 3; 8; 8; 0; 0; 100; 4; 3; 5; 0; 0; 0; 0; 101; 2; 1; 0; 0; 0; 0; 0; 100; 4; 3; 5; 0; 0; 0; 0;
+   101; 3; 2; 0; 0; 0; 0; 0; 100; 6; 8; 0; 0; 0; 0; 0; 101; 4; 3; 0; 0; 0; 0; 0; 112; 0; 0; 0; 0; 0; 0; 0; 15; 24; 0; 0; 0; 0; 0; 0].
+Example C02_reach_nonvacuous :
+  let sc := decode_fl_scn c02_line in
+  let s1 := fst (do_fxop sc (fq_world sc, init_env) FXInit) in
+  let s2 := fst (do_fxop sc s1 (FXRun 24)) in
+  wf_worldb (fq_world sc) = true /\ reach_fl sc s2 /\ d_received (getd (fst s2) 4) = 2.
+Proof.
+  cbv zeta. split; [vm_compute; reflexivity|]. split; [|vm_compute; reflexivity].
+  apply rf_op; [apply rf_init; vm_compute; reflexivity|discriminate].
+Qed.
